@@ -227,8 +227,19 @@ class Structured(UrlParams):
                 else:
                     out.append(bv(ch, 8))
         if (self.full or i == 0) and c.choose(2, f'hasval{i}'):
-            out += S('=') + [self.sym(QUERY_EXCL + b'?,') for _ in range(self.vlen)]
+            out += S('=')
+            if i == 0 and c.choose(2, f'valpct{i}'):
+                # a value with a percent-encoded octet in it (e.g. an encoded comma or '!'): any two hex digits
+                out += [self.sym(QUERY_EXCL + b'?,%'), bv(0x25, 8), self.hexsym(), self.hexsym(), self.sym(QUERY_EXCL + b'?,%')]
+            else:
+                out += [self.sym(QUERY_EXCL + b'?,') for _ in range(self.vlen)]
         return out
+
+    def hexsym(self):
+        self.k += 1
+        b = z3.BitVec(f'x{self.k}', 8)
+        self.c.assume(z3.Or(z3.And(z3.UGE(b, 0x30), z3.ULE(b, 0x39)), z3.And(z3.UGE(b, 0x41), z3.ULE(b, 0x46)), z3.And(z3.UGE(b, 0x61), z3.ULE(b, 0x66))))
+        return b
 
     def inputs(self):
         c = self.c; S = ber.bstr; self.k = 0
@@ -258,7 +269,7 @@ def body(chk):
     if not quick:
         p2 = tier_param('C20B', (3, 8))
         run_lane(chk, UrlParams, p2, bounds={'path chars': f'<= {p2[0]}', 'query chars': f'<= {p2[1]} (absent or present)', 'alphabet': 'as above'}, selftest=False, need_regions=('ok',))
-    run_lane(chk, Structured, ((1, False) if quick else tier_param('C20S', (2, False))), bounds={'attributes': '0..2', 'scope': 'omitted/base/one/sub', 'filter': 'omitted or 3 symbolic chars', 'extensions': '0..2: critical or not, bindname/x-bindpw (symbolic case)/StartTLS OID/credentials OID/unknown, with or without value'},
+    run_lane(chk, Structured, ((1, False) if quick else tier_param('C20S', (2, False))), bounds={'attributes': '0..2', 'scope': 'omitted/base/one/sub', 'filter': 'omitted or 3 symbolic chars', 'extensions': '0..2: critical or not, bindname/x-bindpw (symbolic case)/StartTLS OID/credentials OID/unknown, without value, with symbolic characters, or with a percent-encoded octet (any two hex digits) between two characters'},
              selftest=False, need_regions=('ok', 'err:UnrecognizedCriticalExtension'))
     chk.assumptions += [
         'url::Url::path()/query() are nondeterministic stubs constrained by the url crate\'s documented output alphabet for non-special schemes; every counterexample is replayed through the real url crate, and a path/query the crate does not reproduce makes the check inconclusive',
